@@ -249,9 +249,12 @@ class ClosureModel(Model):
 
 
 # (b) capture-site matrix --------------------------------------------------------------------------------------
-def site_bodies():
-    """name -> (statements of the closure body using captured `cv` (int) only inside that node kind, returns int)"""
-    cv = V("cv")
+def site_bodies(cv=None, cb=None):
+    """name -> (statements of the closure body using captured `cv` (int) only inside that node kind, returns int).
+    `cv` / `cb` may be replaced by any int / bool expression (C02 re-uses the catalogue of consumer positions with operands that
+    reach them through a container)."""
+    cv = cv or V("cv")
+    cb = cb or V("cb")
     lg = fn([("q", "int")], "int", [("return", ("bin", "+", V("q"), I(1)))])
     B = {
         "return": [("return", cv)],
@@ -298,8 +301,15 @@ def site_bodies():
                                ("return", ("method", V("lc"), "len", []))],
         "captured-str-method": [("return", ("bin", "+", ("method", V("cs"), "len", []), cv))],
         "captured-str-concat": [asg("s2", ("bin", "+", V("cs"), ("str", "!"))), ("return", ("method", V("s2"), "len", []))],
-        "captured-bool-not": [("if", ("not", V("cb")), [("return", I(1))], None), ("return", I(0))],
-        "captured-bool-and": [("if", ("bin", "&&", V("cb"), ("bin", ">", cv, I(0))), [("return", I(1))], None), ("return", I(0))],
+        "captured-bool-not": [("if", ("not", cb), [("return", I(1))], None), ("return", I(0))],
+        "captured-bool-and": [("if", ("bin", "&&", cb, ("bin", ">", cv, I(0))), [("return", I(1))], None), ("return", I(0))],
+        "bool-if-cond": [("if", cb, [("return", I(1))], None), ("return", I(0))],
+        "bool-while-cond": [asg("k", I(0)), ("while", ("bin", "&&", cb, ("bin", "<", V("k"), I(2))), [asg("k", ("bin", "+", V("k"), I(1)))]), ("return", V("k"))],
+        "bool-or-rhs": [("if", ("bin", "||", ("bin", ">", cv, I(5)), cb), [("return", I(1))], None), ("return", I(0))],
+        "bool-assert": [("assert", cb), ("return", I(1))],
+        "bool-xor": [("if", ("bin", "^", cb, ("bool", False)), [("return", I(1))], None), ("return", I(0))],
+        "bool-eq": [("if", ("bin", "==", cb, ("bool", True)), [("return", I(1))], None), ("return", I(0))],
+        "bool-return": [asg("rb", fn([], "bool", [("return", cb)])), ("if", call("rb"), [("return", I(1))], None), ("return", I(0))],
         "captured-callee": [("return", call("cf", cv))],
         "captured-callee-only": [("return", call("cf", I(3)))],
         # captured names whose ONLY use is inside an expression statement (a call made for its effect)
